@@ -126,6 +126,3 @@ func sortedStrings(m map[string]bool) []string {
 	sort.Strings(out)
 	return out
 }
-
-func cmdCheck(args []string) int  { fmt.Println("not built"); return 2 }
-func cmdReplay(args []string) int { fmt.Println("not built"); return 2 }
